@@ -136,7 +136,72 @@ func (fn *Func) GuardsAt(n ast.Node) *Formula {
 			break
 		}
 	}
-	return fAnd(parts...)
+	return fn.expandBoolVars(fAnd(parts...), 2)
+}
+
+// expandBoolVars: an atom that is a local boolean variable defined exactly once by a pure
+// boolean expression (comparisons / && / || / ! over variables that are themselves never
+// re-assigned) additionally contributes the decomposition of that expression.
+func (fn *Func) expandBoolVars(f *Formula, depth int) *Formula {
+	if f == nil || depth == 0 {
+		return f
+	}
+	if f.Op != 0 {
+		out := &Formula{Op: f.Op}
+		for _, s := range f.Sub {
+			out.Sub = append(out.Sub, fn.expandBoolVars(s, depth))
+		}
+		return out
+	}
+	a := f.Atom
+	if a == nil || a.E == nil {
+		return f
+	}
+	id, ok := ast.Unparen(a.E).(*ast.Ident)
+	if !ok {
+		return f
+	}
+	info := fn.Info()
+	o, ok := info.ObjectOf(id).(*types.Var)
+	if !ok || o.IsField() {
+		return f
+	}
+	root := fn
+	def := root.SingleDef(o)
+	for def == nil && root.Parent != nil {
+		root = root.Parent
+		def = root.SingleDef(o)
+	}
+	if def == nil {
+		return f
+	}
+	pure := true
+	switch d := ast.Unparen(def).(type) {
+	case *ast.BinaryExpr, *ast.UnaryExpr:
+		ast.Inspect(d, func(n ast.Node) bool {
+			switch n := n.(type) {
+			case *ast.CallExpr, *ast.TypeAssertExpr, *ast.IndexExpr, *ast.FuncLit:
+				pure = false
+			case *ast.UnaryExpr:
+				if n.Op != token.NOT && n.Op != token.SUB {
+					pure = false
+				}
+			case *ast.Ident:
+				if v, ok := info.ObjectOf(n).(*types.Var); ok && !v.IsField() && v.Pkg() != nil && v.Parent() != v.Pkg().Scope() {
+					if len(root.Assignments(v)) > 1 {
+						pure = false
+					}
+				}
+			}
+			return pure
+		})
+	default:
+		pure = false
+	}
+	if !pure {
+		return f
+	}
+	return fAnd(f, fn.expandBoolVars(decompose(def, a.Pol, a.Fact), depth-1))
 }
 
 func typeSwitchOperand(sw *ast.TypeSwitchStmt) ast.Expr {
